@@ -337,7 +337,10 @@ def source_to_code_protocol(ctx, RULE):
         if name == 'super':
             return _Super()
         if name == 'compile':
-            only_ast = any('PyCF_ONLY_AST' in repr(x) or x == 1024 for x in list(args[3:]) + list(kw.values()))
+            flags = kw.get('flags', args[3] if len(args) > 3 else 0)
+            only_ast = 'PyCF_ONLY_AST' in repr(flags) or (isinstance(flags, int) and flags & 0x400)
+            if only_ast:
+                log.append(('parse-flags', flags))
             return ('AST', args[0]) if only_ast else ('CODE', args[0])
         return saved_b(name, args, kw) if saved_b else NotImplemented
     F.builtin_hook = bh
@@ -363,6 +366,11 @@ def source_to_code_protocol(ctx, RULE):
                                'without a published configuration the standard loader compiles the module and no transformer is built',
                                out == 'STANDARD-CODE' and [x[0] for x in log] == ['standard'], f'evaluates to {out!r}; {log}')
                     else:
+                        pf = [x[1] for x in log if x[0] == 'parse-flags']
+                        ctx.ob(RULE, f'source_to_code:parsed-like-the-standard-loader:{tag}', lm.where(fn.node),
+                               'the module is parsed with PyCF_ONLY_AST and no other compiler flag (extra grammar flags such as '
+                               'PyCF_TYPE_COMMENTS reject or re-interpret sources the standard loader accepts)',
+                               pf == [0x400] or (len(pf) == 1 and 'PyCF_ONLY_AST' in repr(pf[0]) and '|' not in repr(pf[0])), f'parse flags {pf!r}')
                         built = [x[1] for x in log if x[0] == 'transformer']
                         ok = len(built) == 1 and built[0].get('module_name') == 'pkg.mod' and built[0].get('conf') == 'CONF' and \
                             out == ('CODE', ('TRANSFORMED', ('AST', 'SOURCE-TEXT'), 'pkg.mod', 'CONF'))
